@@ -238,7 +238,8 @@ def skewed_cells(prog):
 
 
 def analyse(ex, which, prog, meta, inputs, case):
-    lmax = max(m["chain"] for m in meta) + LMAX_EXTRA
+    # a step may lower to up to three combinators (comparison, multiplication, subtraction)
+    lmax = 3 * max(m["chain"] for m in meta) + LMAX_EXTRA
     ticks = 12 * lmax
     rows, missing, _sim = stateful.trace(ex, which, inputs, ticks)
     if missing:
@@ -313,27 +314,40 @@ def run_case(case):
             if und:
                 return dict(base, verdict="inconclusive", why=und, src=src, evaluations=ticks)
             res[opt] = r
-            ticks += 12 * (max(m["chain"] for m in meta) + LMAX_EXTRA)
+            ticks += 12 * (3 * max(m["chain"] for m in meta) + LMAX_EXTRA)
             if r["problems"]:
                 lr, _ = analyse(ex, "log", prog, meta, val, case)
                 b = ex.build
-                if lr is None or lr["problems"]:
+                # classify per failing reader: fails in the logical execution too -> upstream of wiring;
+                # only in the physical one -> wiring (K1 when the emitted partition is the planned one)
+                phys_bad = {pr.get("reader") for pr in r["problems"] if pr.get("reader")}
+                anon = [pr for pr in r["problems"] if not pr.get("reader")]
+                log_bad = None if lr is None else {pr.get("reader") for pr in lr["problems"] if pr.get("reader")}
+                faithful = wiring.physical_partition(b.bp) == wiring.planned_partition(b.bp, b.cap)
+                skew = skewed_cells(prog)
+                skew_readers = {rid for m in meta if m["mem"] in skew for rid in m["ids"]}
+                if log_bad is None or anon:
+                    upstream_r, wiring_r = phys_bad, set()
+                else:
+                    upstream_r, wiring_r = phys_bad & log_bad, phys_bad - log_bad
+                if wiring_r and not faithful:
+                    stage = "wiring"
+                elif upstream_r and not (upstream_r <= skew_readers):
                     stage = "upstream"
-                elif wiring.physical_partition(b.bp) == wiring.planned_partition(b.bp, b.cap):
+                elif anon:
+                    stage = "upstream"
+                elif wiring_r:
                     stage = sem.K1
                 else:
-                    stage = "wiring"
-                witness = {"source": src, "optimize": opt, "inputs": val, "problems": r["problems"][:3], "stage": stage}
+                    stage = F_SKEW
+                witness = {"source": src, "optimize": opt, "inputs": val, "problems": r["problems"][:3], "stage": stage,
+                           "readers_failing_in_logical_execution_too": sorted(upstream_r), "readers_failing_physically_only": sorted(wiring_r)}
                 out = dict(base, verdict="violated", nontrivial=True, witness=witness, evaluations=ticks,
                            why="%s (optimize=%s): %s" % (stage, opt, str(r["problems"][0])[:300]))
-                if stage == sem.K1:
-                    out["finding"] = sem.K1
-                elif stage == "upstream" and skewed_cells(prog) and all(
-                        any(pr.get("reader") in m["ids"] for m in meta if m["mem"] in skewed_cells(prog))
-                        for pr in r["problems"] if pr.get("reader")):
-                    # every failing reader belongs to a cell whose loop combines the cell's value of different ticks
-                    out["finding"] = F_SKEW
-                    out["why"] = "unbalanced read paths: " + out["why"]
+                if stage in (sem.K1, F_SKEW):
+                    out["finding"] = stage
+                    if stage == F_SKEW:
+                        out["why"] = "unbalanced read paths: " + out["why"]
                 return out
         for rid, tr in res[True]["traces"].items():
             tr2 = res[False]["traces"].get(rid)
